@@ -180,6 +180,8 @@ class TriangularLinearOperator(LinearOperator, _TriangularLinearOperatorBase):
         Optional[Union[Float[Tensor, "*batch M"], Float[Tensor, " *batch"], Float[Tensor, " 0"]]],
         Optional[Float[Tensor, "..."]],
     ]:
+        if inv_quad_rhs is not None and inv_quad_rhs.dim() == 1:  # a single vector is a one-column matrix
+            inv_quad_rhs = inv_quad_rhs.unsqueeze(-1)
         if inv_quad_rhs is None:
             inv_quad_term = torch.empty(0, dtype=self.dtype, device=self.device)
         else:
